@@ -97,7 +97,7 @@ def valid_case(row, seed):
         try:
             with attach.Hooks() as hk:
                 attach.iteration_budget(hk, 400)
-                s.run(n_total=n_total, progress=False, save_every=row["save_every"])
+                s.run(n_total=n_total, progress=bool(seed % 2), save_every=row["save_every"])
         except attach.IterationBudgetExceeded:
             out["bad"].append(("no-termination", f"run(n_total={n_total}) did not terminate within 400 iterations (N={N})"))
             return out
@@ -229,7 +229,7 @@ def callable_form_case(form, tform, opts, seed):
     try:
         with attach.Hooks() as hk:
             attach.iteration_budget(hk, 400)
-            s.run(n_total=128, progress=False)
+            s.run(n_total=128, progress=bool(seed % 2))
     except Exception as e:
         out["bad"].append(("valid-config-raises", f"run() raised {type(e).__name__}: {e} for a likelihood given as {form}, prior transform as {tform}, options {opts}\n{fmt_exc()[-300:]}"))
         return out
